@@ -140,7 +140,16 @@ pub fn run_exit_contract(
         let shown = shown_errors(&r);
         let (file, rep) = totals(&r, spec);
         let cmd = spec.cmdline();
-        if kind == "other-mode" {
+        if kind == "other-mode-custom" {
+            let want = n.unwrap_or(0);
+            if r.status != want {
+                out.fail = fail(
+                    "status-custom-check-other-mode",
+                    format!("-E {:?} and a failing custom check: exit status {} (expected {want}) [cmd: {cmd}]", n, r.status),
+                );
+                return out;
+            }
+        } else if kind == "other-mode" {
             // view / filtered writing on the same input: a reported fatal gives N (0 or 1 without -E)
             let fatal = fatal_reported(&r);
             let want: Vec<i32> = if init_failed(&r) {
